@@ -296,3 +296,5 @@ V("C04", "clip_tf_dropped", "violation", (TDS, "        if self.h >= config.tf -
 V("C04", "benign_clip_tf_minmax_form", "silent", (TDS, "        if self.h >= config.tf - system.dae.t:\n            self.h = max(config.tf - system.dae.t, 0)\n            if self.h > 0:\n                self._t_next = config.tf\n", "        if self.h >= config.tf - system.dae.t:\n            self.h = max(min(self.h, config.tf - system.dae.t), 0)\n            if self.h > 0:\n                self._t_next = config.tf\n"))
 V("C11", "extparam_not_refreshed_after_conversion", "violation", (SYSTEM, "            self.link_ext_param()\n        self.store_existing()", "            pass\n        self.store_existing()"), rule="C11.coeff")
 V("C17", "module_entry_drops_status", "violation", ("andes/__main__.py", "    sys.exit(main())", "    main()"), rule="C17.aggregate")
+V("C17", "pflow_exit_code_overwritten", "violation", (PFLOW, "        system.exit_code += 0 if self.converged else 1\n", "        system.exit_code = 0 if self.converged else 1\n"), rule="C17.exit")
+V("C17", "benign_pflow_exit_code_if_form", "silent", (PFLOW, "        system.exit_code += 0 if self.converged else 1\n", "        if not self.converged:\n            system.exit_code += 1\n"))
